@@ -104,7 +104,14 @@ func (r *run) frameObligations(fr *frame, en *env, pre, exit *node, mods []ast.E
 					}
 				}
 				if !covered {
-					r.oblige("frame", "frame["+name[2:]+"]", exit.guard, c.Eq(before, after), "ghost "+name[2:]+" is not in the modifies clause, so it must be unchanged")
+					goal := c.Eq(before, after)
+					if g := r.E.Ghosts[name[2:]]; g.AllocInit != "" && s.Kind == smt.KArray && s.Idx == smt.Int {
+						// a reference-keyed ghost map is initialised at every allocation: only the entries of
+						// objects that existed at entry are the caller's business
+						k := c.Fresh("frame.ref", smt.Int)
+						goal = c.Implies(c.And(c.Op(">=", nil, k, c.IntC(0)), c.Op("<", nil, k, alloc0)), c.Eq(c.Select(before, k), c.Select(after, k)))
+					}
+					r.oblige("frame", "frame["+name[2:]+"]", exit.guard, goal, "ghost "+name[2:]+" is not in the modifies clause, so it must be unchanged")
 				}
 				continue
 			}
